@@ -43,7 +43,7 @@ def main(tier, seed):
                 outcomes[k] = outcomes.get(k, 0) + 1
     run.notes["cases_per_family"] = fam
     run.notes["outcomes"] = dict(sorted(outcomes.items(), key=lambda x: -x[1])[:40])
-    if len(fam) < 15:
+    if len(fam) < 16:
         raise ToolError("not every hostile family was exercised: %s" % sorted(fam))
     validate_traces(run, "VmTotalTrace.tla", {}, ["Inv"], files, "total-trace", timeout=1800,
                     site_of=lambda m: str(m.get("event", {}).get("fam") or m.get("state", {}).get("fam")))
